@@ -1232,7 +1232,7 @@ def gen_gap(rng, cfg, depth, force_noise=False, top=False):
             if rng.random() < 0.55:
                 txt = "".join(rng.choice(' abc"()[]{}#_;\\\'~`é:.') for _ in range(rng.randint(0, 8)))
                 if rng.random() < 0.15:
-                    txt += rng.choice(["#_ x", "(unclosed", '"open', "\rcr", "#[["])
+                    txt += rng.choice(["#_ x", "(unclosed", '"open', "\tcr", "#[["])
                 elts.append(("com", txt, rng.choice(["\n", "\n", "\r\n"])))
             else:
                 save = cfg.left
